@@ -317,6 +317,22 @@ def gen_invariance_sig(rng):
     return leaf
 
 
+def affine_via_library(leaf, a, k, want):
+    import sageopt as so
+    from sageopt.symbolic.signomials import Signomial
+    alpha = np.array([[float(F(x)) for x in r] for r in leaf['alpha']], dtype=float)
+    cs = [F(x) for x in leaf['c']]
+    c = np.array([int(x) for x in cs]) if all(x.denominator == 1 for x in cs) else np.array([float(x) for x in cs])
+    try:
+        g = (Signomial(alpha, c) + float(F(k) / F(a))) * float(a)          # (the offset meets the integer-typed array first)
+        s1, v1 = rm.solve_ecos(so.sig_relaxation(g, form='primal'))
+    except Exception as e:  # noqa: BLE001
+        return 'computing a * f + k with the library raised %s' % type(e).__name__
+    if s1 == 'solved' and not close(v1, want, 1e-4):
+        return 'bound(a f + k) = %.8g with a f + k formed by the library\'s arithmetic (a = %s, k = %s), but a bound(f) + k = %.8g' % (v1, a, k, want)
+    return None
+
+
 def stream_invariance(ctx, rng, N):
     ech_lines, ech_meta = [], []
     for t in range(N):
@@ -361,6 +377,15 @@ def stream_invariance(ctx, rng, N):
                     if not close(v1, want, 1e-4):
                         ctx.violation('scaling: bound(a f + k) = %.8g but a bound(f) + k = %.8g (a = %s, k = %s)' % (v1, want, a, k),
                                       {'stream': 'invariance', 'leaf': leaf, 'transformed': g, 'transform': 'affine', 'a': str(a), 'k': str(k)})
+                        continue
+                    # the same through the library's own arithmetic, a * f + k', on a signomial whose coefficient array the caller
+                    # typed as INTEGERS when all coefficients are integers (k' need not be an integer)
+                    k2 = k + F(1, 2)
+                    why = affine_via_library(leaf, a, k2, float(a) * v0 + float(k2))
+                    ctx.count('invariance:affine-library')
+                    if why:
+                        ctx.violation('scaling: ' + why, {'stream': 'invariance', 'leaf': leaf, 'transform': 'affine-library', 'a': str(a), 'k': str(k2),
+                                                          'want': float(a) * v0 + float(k2)})
     return ech_lines
 
 
@@ -518,6 +543,26 @@ def recheck(r):
                     r['rel'], 'feasible' if v_ > -math.inf else 'infeasible')
     elif k == 'box':
         stream_boxes(ctx, rng, 0, [], given=[(r['leaf'], r['box'])])
+    elif k == 'invariance' and r.get('transform') == 'affine-library':
+        return (lambda w: ('scaling: ' + w) if w else None)(affine_via_library(r['leaf'], F(r['a']), F(r['k']), r['want']))
+    elif k == 'corpus':
+        e = r['entry']
+        lo, hi = lipschitz_enclosure(e['leaf'], e['box'])
+        s_, v_ = solve_feas(e['leaf'], e['box'])
+        if s_ == 'solved' and lo > 0 and v_ == -math.inf:
+            tagged = False
+            if e.get('tag'):
+                import sageopt.coniclifts as cl
+                cl.heuristic_reduce_cond_age_cones(False)
+                try:
+                    s2, v2 = solve_feas(e['leaf'], e['box'])
+                finally:
+                    cl.heuristic_reduce_cond_age_cones(True)
+                tagged = s2 == 'solved' and v2 > -math.inf and covers_as_documented(e['leaf'], e['box'])
+            known = {x.get('id') for x in common.load_known_findings('C06') if x.get('status') == 'known'}
+            if not (tagged and e.get('tag') in known):
+                return 'exactness (corpus): min over the box in [%.6g, %.6g] but sage_feasibility reports infeasible' % (lo, hi)
+        return None
     elif k == 'invariance':
         s0, v0 = solve_bound(r['leaf'])
         s1, v1 = solve_bound(r['transformed'])
